@@ -37,7 +37,6 @@ def decode(data: bytes):
 
 class C01(Prop):
     id = "C01"
-    level = "other"
     binary_cases = True
     prop_file = "Props/C01"
     quick_n = 2500
